@@ -22,7 +22,7 @@ Inductive fval :=
 | V_enc (b : bytes)                   (* hex / base64 / base32 text, as the octets it denotes *)
 | V_ns (l : list N)                   (* []uint16 *)
 | V_pairs (l : list (N * bytes * N))  (* []EDNS0 / []SVCBKeyValue: code, packed value, and what its len() reports *)
-| V_apl (l : list (bool * N * bytes)) (* []APLPrefix: negation, prefix length, masked address (4 or 16 octets) *).
+| V_apl (l : list (bool * N * bytes)) (* []APLPrefix: negation, prefix length, address (4 or 16 octets) *).
 
 Definition rdata := list (string * fval).
 Fixpoint vget (v : rdata) (f : string) : option fval :=
@@ -194,7 +194,7 @@ Definition pack_apl_prefix (p : bool * N * bytes) (cap : N) (st : pn_state) : re
   | Some f =>
     do st <- pack_fixed (u16 f) cap st;
     do st <- pack_fixed (u8 prefix) cap st;
-    let addr := trim_trailing_zeros (takeN ((prefix + 7) / 8) ip) in
+    let addr := trim_trailing_zeros (takeN ((prefix + 7) / 8) (mask_bytes ip prefix)) in   (* IP.Mask(Mask)[:(prefix+7)/8] *)
     let n := (if neg then 128 else 0) + (lenN addr) mod 128 in
     do st <- pack_fixed (u8 n) cap st;
     pack_fixed addr cap st
